@@ -612,6 +612,16 @@ func (f *Frame) callMods(cc *ssa.CallCommon, ms *modSet) {
 			return
 		}
 	}
+	// a traced callee bumps its ghost call counter
+	{
+		t := callee
+		if o := callee.Origin(); o != nil {
+			t = o
+		}
+		if tc := f.ctx.eng.contractFor(t); tc != nil && tc.Traced {
+			f.addComp(ms, "$ncalls!"+funcKey(t), SInt)
+		}
+	}
 	// private cells captured by the closure being called and written by it
 	f.closureCellMods(cc, callee, ms)
 	if f.top().trackOwn {
